@@ -102,7 +102,7 @@ type expect struct {
 }
 
 func TestChain(t *testing.T) {
-	hx.Check(t, hx.N{Quick: 6000, Thorough: 40000}, func(t *rapid.T, c *hx.Case) {
+	hx.Check(t, hx.N{Quick: 36000, Thorough: 400000}, func(t *rapid.T, c *hx.Case) {
 		hx.Reset(hx.Epoch)
 		sc := base.NewSlotChain()
 		var slots []*slot
